@@ -19,9 +19,9 @@ func Replay(r *mon.Run, raw json.RawMessage) {
 	var e *env
 	var err error
 	if c.Kind == "c04-seq" {
-		e, err = buildDynamic(c.Rules)
+		e, err = buildDynamic(c.Rules, c.Mux)
 	} else {
-		e, err = envFor(c.Rule)
+		e, err = envFor(c.Rule, c.Mux)
 	}
 	if err != nil {
 		r.Inconclusive("rule not registrable on this tree: " + err.Error())
